@@ -62,14 +62,17 @@ func fHistory(r *rng, w *fWorld, nq int) (diff string, entries []*fEntry, t *fTr
 		olds = append(olds, fOld{obj: obj, first: fReser(obj), desc: fmt.Sprintf("result of query %d %s", i, q)})
 		// evaluate derived results on old result objects
 		for j := r.n(3); j > 0; j-- {
-			fPoke(r, pick(r, olds).obj)
+			o := pick(r, olds)
+			if p := guardStr(func() string { fPoke(r, o.obj); return "" }); p != "" && diff == "" {
+				diff = fmt.Sprintf("%s: evaluating derived results on it panics", o.desc)
+			}
 		}
 		if sz := main.s.GetCacheSize(); sz != size {
 			note("query %d: derived-result calls changed the cache size %d -> %d", i, size, sz)
 		}
 	}
 	for _, o := range olds {
-		if now := fReser(o.obj); now != o.first {
+		if now := guardStr(func() string { return fReser(o.obj) }); now != o.first {
 			note("%s changed: first %q, now %q", o.desc, o.first, now)
 		}
 	}
